@@ -6,6 +6,10 @@
 import Mqtt.VarInt
 import Mqtt.Pid
 import Mqtt.Topic
+import Mqtt.V3.Encode
+import Mqtt.V3.Decode
+import Mqtt.V3.Poll
+import Mqtt.V3.Text
 
 namespace Mqtt.Driver
 open Mqtt
@@ -64,29 +68,126 @@ def opTn (bs : Bytes) : String :=
 
 def opUtf8 (bs : Bytes) : String := s!"valid={b01 (Utf8.valid bs)}"
 
-def step (line : String) : String :=
+/-! ### packets -/
+
+def showEncLen : Except Error Nat → String
+  | .ok n => toString n
+  | .error e => e.show
+
+def parseTerm (s : String) : Option V3.Term :=
+  if s = "eof" then some .eof
+  else match s.splitOn ":" with
+    | ["err", k] => (IoKind.ofName? k).map V3.Term.err
+    | _ => none
+
+def parseSched (s : String) : Option (List Poll.Sched) :=
+  if s = "-" then some [] else
+  (s.splitOn ",").mapM fun it =>
+    if it = "p" then some Poll.Sched.pending
+    else if it = "d" then some Poll.Sched.pendingDrop
+    else if it.startsWith "c" then (it.drop 1).toString.toNat?.map Poll.Sched.chunk
+    else none
+
+def showReqs (l : List (Nat × Nat)) : String :=
+  if l.isEmpty then "-" else ";".intercalate (l.map fun (a, b) => s!"{a}:{b}")
+
+def v3ShowOut : V3.Out Error V3.Packet → String
+  | .ok p n => s!"ok {n} {p.show}"
+  | .err e => s!"err {e.show}"
+  | .panic s => s!"panic[{s}]"
+
+def v3Dec (debug : Bool) (bs : Bytes) : String :=
+  match V3.decodeBlocking debug bs with
+  | .ok (some p) n => s!"ok {n} {p.show}"
+  | .ok none _ => "none"
+  | .err e => s!"err {e.show}"
+  | .panic s => s!"panic[{s}]"
+
+def v3Hdr (bs : Bytes) : String :=
+  match V3.headerDecodeBlocking bs with
+  | .ok h n => s!"ok {h.typ.toNat} {b01 h.dup} {h.qos.toNat} {b01 h.retain} {h.remainingLen} {n}"
+  | .err e => s!"err {e.show}"
+  | .panic s => s!"panic[{s}]"
+
+def v3Parts : V3.Packet → String
+  | .connect c =>
+    let w := match c.lastWill with
+      | some w => s!" will={hexOrDash w.encode}/{w.encodeLen}"
+      | none => ""
+    s!"body={hexOrDash c.encode} blen={c.encodeLen} proto={hexOrDash c.protocol.encode}/{c.protocol.encodeLen}{w}"
+  | .publish p => s!"body={hexOrDash p.encode} blen={p.encodeLen}"
+  | .subscribe x => s!"body={hexOrDash x.encode} blen={x.encodeLen}"
+  | .suback x => s!"body={hexOrDash x.encode} blen={x.encodeLen}"
+  | .unsubscribe x => s!"body={hexOrDash x.encode} blen={x.encodeLen}"
+  | _ => "body=~"
+
+def v3Enc (debug : Bool) (toks : List String) : String :=
+  match V3.parsePacket toks with
+  | .syntax => "bad-op"
+  | .unconstructible w => s!"unconstructible {w}"
+  | .ok p =>
+    let len := showEncLen p.encodeLen
+    match p.encode debug with
+    | .ok vb => s!"ok {hexOfBytes vb.asRef} len={len} {v3Parts p}"
+    | .err e => s!"err {e.show} len={len}"
+    | .panic s => s!"panic[{s}]"
+
+def v3Poll (debug : Bool) (bs : Bytes) (sched : List Poll.Sched) (term : V3.Term) : String :=
+  let t : Poll.Term := match term with
+    | .eof => .eof
+    | .err k => .err k
+  let r := Poll.run (V3.pollFamily debug) debug bs sched t
+  let res := match r.result with
+    | .ok total body p => s!"ok total={total} body={hexOrDash body} {p.show}"
+    | .err e => s!"err {e.show}"
+    | .panic s => s!"panic[{s}]"
+  s!"{res} consumed={r.consumed} pend={r.log.pendings} reqs={showReqs r.log.requests}"
+
+def v3Cwp (proto : String) (bs : Bytes) : String :=
+  match V3.parseProtocol proto with
+  | .ok p =>
+    match V3.Connect.decodeWithProtocol p bs with
+    | .ok c rest => s!"ok {bs.length - rest.length} {(V3.Packet.connect c).show}"
+    | .more => "more"
+    | .err e => s!"err {e.show}"
+    | .panic s => s!"panic[{s}]"
+  | _ => "bad-op"
+
+def opProto (bs : Bytes) : String :=
+  match Protocol.decode bs with
+  | .ok p rest => s!"ok {p.name} {bs.length - rest.length}"
+  | .more => "more"
+  | .err e => s!"err {e.show}"
+  | .panic s => s!"panic[{s}]"
+
+def withHex (h : String) (f : Bytes → String) : String :=
+  match bytesOfHex h with
+  | some bs => f bs
+  | none => "bad-op"
+
+def step (debug : Bool) (line : String) : String :=
   match line.trimAscii.toString.splitOn " " with
   | ["vi", n] => match n.toNat? with
     | some k => opVi k
     | none => "bad-op"
-  | ["vib", h] => match bytesOfHex h with
-    | some bs => opVib bs
-    | none => "bad-op"
+  | ["vib", h] => withHex h opVib
   | ["pid", p, u] => match p.toNat?, u.toNat? with
     | some a, some b => opPid a b
     | _, _ => "bad-op"
-  | ["tf", h] => match bytesOfHex h with
-    | some bs => opTf false bs
+  | ["tf", h] => withHex h (opTf debug)
+  | ["tn", h] => withHex h opTn
+  | ["utf8", h] => withHex h opUtf8
+  | ["proto", h] => withHex h opProto
+  | ["dec", "v3", h] => withHex h (v3Dec debug)
+  | ["deca", "v3", h, t] => match parseTerm t with
+    | some t => withHex h fun bs => v3ShowOut (V3.runAsync (V3.decodeAsync debug) bs t)
     | none => "bad-op"
-  | ["tfd", h] => match bytesOfHex h with
-    | some bs => opTf true bs
-    | none => "bad-op"
-  | ["tn", h] => match bytesOfHex h with
-    | some bs => opTn bs
-    | none => "bad-op"
-  | ["utf8", h] => match bytesOfHex h with
-    | some bs => opUtf8 bs
-    | none => "bad-op"
+  | ["hdr", "v3", h] => withHex h v3Hdr
+  | "enc" :: "v3" :: toks => v3Enc debug toks
+  | ["poll", "v3", h, sc, t] => match parseSched sc, parseTerm t with
+    | some sc, some t => withHex h fun bs => v3Poll debug bs sc t
+    | _, _ => "bad-op"
+  | ["cwp", "v3", p, h] => withHex h (v3Cwp p)
   | _ => "bad-op"
 
 end Mqtt.Driver
